@@ -21,6 +21,8 @@ pub fn run(ctx: &mut Ctx, prop: &str) {
         "C03" => c03(ctx),
         "C04" => c04(ctx),
         "C05" => c05(ctx),
+        "C06" => c06(ctx),
+        "C11" => c11(ctx),
         "C08" => c08(ctx),
         "C09" => c09(ctx),
         "C10" => c10(ctx),
@@ -870,4 +872,687 @@ fn c09(ctx: &mut Ctx) {
             Some(format!("sonic/trim/{}/{}/{:?}/{}", (supported as i64 - max_degree as i64).signum(), (shb as i64 - max_degree as i64).signum(), tb.as_ref().map(|v| v.len()), in_range)));
     }
     ctx.flush_model("C09-sonic");
+}
+
+// ------------------------------------------------------------------------------------------------
+// C06 (model-backed): SonicKZG10's OWN open_combinations / check_combinations against
+// PCV/Model/SonicLC.lean — combined commitments, proofs, decisions, refusal kinds
+// ------------------------------------------------------------------------------------------------
+use ark_poly_commit::{BatchLCProof, Evaluations, LCTerm, LinearCombination, QuerySet};
+
+type LinComb = LinearCombination<Fr>;
+
+fn lcs_args(r: wire::Req, lcs: &[LinComb]) -> wire::Req {
+    use crate::wire::Val;
+    r.arg("lclabels", Val::L(lcs.iter().map(|l| wire::label(l.label())).collect()))
+        .arg("lccoeffs", Val::L(lcs.iter().map(|l| wire::fes(&l.iter().map(|t| t.0).collect::<Vec<_>>())).collect()))
+        .arg("lcone", Val::L(lcs.iter().map(|l| Val::L(l.iter().map(|t| wire::nat(t.1.is_one() as usize)).collect())).collect()))
+        .arg("lcterms", Val::L(lcs.iter().map(|l| Val::L(l.iter().map(|t| match &t.1 { LCTerm::One => wire::label(""), LCTerm::PolyLabel(s) => wire::label(s) }).collect())).collect()))
+}
+
+fn lc_terms(lc: &LinComb) -> Vec<(Fr, LCTerm)> {
+    lc.iter().cloned().collect()
+}
+
+/// the value of a combination at a point: sum of coeff * p(z) over polynomial terms + constants
+fn lc_true_value(c: &Case, lc: &LinComb, z: &Fr) -> Fr {
+    let mut v = Fr::zero();
+    for (co, t) in lc.iter() {
+        match t {
+            LCTerm::One => v += *co,
+            LCTerm::PolyLabel(s) => {
+                if let Some(p) = c.polys.iter().rev().find(|p| p.label() == s) {
+                    v += *co * p.evaluate(z);
+                }
+            }
+        }
+    }
+    v
+}
+
+/// the combinations as (labelled polynomial, blinding polynomial) the way `open_combinations` forms
+/// them (constants skipped; a bound only for a single term naming a bounded polynomial)
+fn lc_combined(c: &Case, lcs: &[LinComb]) -> Option<(Vec<LP>, Vec<Rand>)> {
+    use ark_poly_commit::PCCommitmentState;
+    let mut polys = vec![];
+    let mut rands = vec![];
+    for lc in lcs {
+        let mut poly = UniPoly::from_coefficients_vec(vec![]);
+        let mut rand = Rand::empty();
+        let mut bound = None;
+        for (coeff, t) in lc.iter() {
+            if let LCTerm::PolyLabel(l) = t {
+                let i = c.polys.iter().rposition(|p| p.label() == l)?;
+                if lc.len() == 1 && c.polys[i].degree_bound().is_some() {
+                    bound = c.polys[i].degree_bound();
+                }
+                poly += (*coeff, c.polys[i].polynomial());
+                rand += (*coeff, &c.rands[i]);
+            }
+        }
+        polys.push(LabeledPolynomial::new(lc.label().clone(), poly, bound, None));
+        rands.push(rand);
+    }
+    Some((polys, rands))
+}
+
+/// the combined commitments as group elements, from the library's commitments: sum coeff * C
+fn lc_combined_comms(c: &Case, lcs: &[LinComb]) -> Option<Vec<ark_bls12_381::G1Affine>> {
+    let mut out = vec![];
+    for lc in lcs {
+        let mut acc = ark_bls12_381::G1Projective::zero();
+        for (coeff, t) in lc.iter() {
+            if let LCTerm::PolyLabel(l) = t {
+                let i = c.polys.iter().rposition(|p| p.label() == l)?;
+                acc += c.comms[i].commitment().0.mul(*coeff);
+            }
+        }
+        out.push(acc.into_affine());
+    }
+    Some(out)
+}
+
+/// witness scalars of a combination batch proof, one per point label (last combination with a label wins)
+fn lc_witness_scalars(c: &Case, polys: &[LP], rands: &[Rand], qs: &QuerySet<Fr>, xis: &[Fr]) -> Vec<Fr> {
+    let mut ws = vec![];
+    let mut k = 0;
+    for (_, pt, labels) in crate::generic::group(qs) {
+        let sub: Vec<usize> = labels.iter().filter_map(|l| polys.iter().rposition(|p| p.label() == l)).collect();
+        let ps: Vec<LP> = sub.iter().map(|&i| polys[i].clone()).collect();
+        let rs: Vec<Rand> = sub.iter().map(|&i| rands[i].clone()).collect();
+        let need = 1 + ps.len();
+        if k + need > xis.len() { break; }
+        ws.push(witness_scalar(&c.trap, &ps, &rs, &pt, &xis[k..k + need]));
+        k += need;
+    }
+    ws
+}
+
+fn kind_of<T>(r: &Result<Result<T, ark_poly_commit::Error>, String>) -> String {
+    match r {
+        Ok(Ok(_)) => "answered".to_string(),
+        Ok(Err(e)) => err_kind(e),
+        Err(_) => "abort".to_string(),
+    }
+}
+
+fn pad_xis(xis: &[Fr], n: usize, id: &str, salt: u64) -> Vec<Fr> {
+    let mut x = xis.to_vec();
+    let mut e = rng_for(salt, id, 6);
+    while x.len() < n { x.push(Fr::rand(&mut e)); }
+    x
+}
+
+/// run the library's `open_combinations`, queue the model request (+ the outcome-kind request)
+fn lc_open(ctx: &mut Ctx, rng: &mut Rng, id: &str, c: &Case, cs: &[CommS], lcs: &[LinComb], qs: &QuerySet<Fr>, sp: &mut LogSponge)
+    -> (Result<Result<BatchLCProof<Fr, Vec<Proof>>, ark_poly_commit::Error>, String>, Vec<Fr>) {
+    let before = sp.challenges().len();
+    let r = guarded(|| PC::open_combinations(&c.ck, lcs, &c.polys, &c.comms, qs, sp, &c.rands, Some(&mut rng.clone())));
+    let xis: Vec<Fr> = sp.challenges()[before..].to_vec();
+    let ngroups = crate::generic::group(qs).len();
+    let full = if matches!(r, Ok(Ok(_))) { xis.clone() } else { pad_xis(&xis, qs.len() + ngroups + 2, id, 3) };
+    let mk = |op: &str| queries_args(lcs_args(comms_args(rands_args(polys_args(c.base(op), &c.polys), &c.rands), cs), lcs), qs).arg("xis", wire::fes(&full));
+    match &r {
+        Ok(Ok(p)) => {
+            let mut exp = vec![
+                ("ws".into(), Expect::G1s(p.proof.iter().map(|x| x.w).collect())),
+                ("rvs".into(), Expect::Raw(wire::Val::L(p.proof.iter().map(|x| wire::opt_fe(&x.random_v)).collect()))),
+                ("used".into(), Expect::Nat(xis.len())),
+            ];
+            if let Some(cc) = lc_combined_comms(c, lcs) {
+                exp.push(("lccs".into(), Expect::G1s(cc)));
+            }
+            ctx.ses.ask(id, mk("sonic.open_combinations"), ImplOutcome::Ok(exp));
+        }
+        Ok(Err(e)) => ctx.ses.ask(id, mk("sonic.open_combinations"), ImplOutcome::Refuse(err_kind(e))),
+        Err(a) => ctx.ses.ask(id, mk("sonic.open_combinations"), ImplOutcome::Refuse(a.clone())),
+    }
+    ctx.ses.ask(&format!("{}/kind", id), mk("sonic.open_combinations_kind"), ImplOutcome::Ok(vec![("kind".into(), Expect::Raw(wire::label(&kind_of(&r))))]));
+    (r, xis)
+}
+
+/// run the library's `check_combinations` on a statement in scalar form, queue the model request
+/// (+ the outcome-kind request); returns the outcome and the challenges the verifier squeezed
+fn lc_check(ctx: &mut Ctx, rng: &mut Rng, id: &str, c: &Case, cs: &[CommS], lcs: &[LinComb], qs: &QuerySet<Fr>, ev: &Evaluations<Fr, Fr>,
+    ws: &[Fr], rvs: &[Option<Fr>], vs: &mut LogSponge, want_lccs: bool) -> (Outcome3, String, Vec<Fr>) {
+    let comms = comms_from(cs);
+    let proof = BatchLCProof { proof: ws.iter().zip(rvs).map(|(w, rv)| Proof { w: g1(*w), random_v: *rv }).collect::<Vec<Proof>>(), evals: None };
+    let ngroups = crate::generic::group(qs).len();
+    let rs = crate::kzg::replay_u128(rng, ws.len().max(ngroups) + 1);
+    let before = vs.challenges().len();
+    let r = guarded(|| PC::check_combinations(&c.vk, lcs, &comms, qs, ev, &proof, vs, rng));
+    let xis: Vec<Fr> = vs.challenges()[before..].to_vec();
+    let full = if matches!(r, Ok(Ok(_))) { xis.clone() } else { pad_xis(&xis, qs.len() + ngroups + 2, id, 4) };
+    let mk = |op: &str| evals_args(queries_args(lcs_args(comms_args(c.base(op), cs), lcs), qs), ev)
+        .arg("ws", wire::fes(ws))
+        .arg("rvs", wire::Val::L(rvs.iter().map(|x| wire::opt_fe(x)).collect()))
+        .arg("xis", wire::fes(&full))
+        .arg("rs", wire::fes(&rs));
+    let o3 = match &r {
+        Ok(Ok(b)) => {
+            let mut exp = vec![("b".into(), Expect::Bool(*b)), ("used".into(), Expect::Nat(xis.len()))];
+            if want_lccs {
+                // the verifier's combined commitments, recomputed from the presented commitments
+                let mut cc = vec![];
+                let mut okc = true;
+                for lc in lcs {
+                    let mut acc = Fr::zero();
+                    for (coeff, t) in lc.iter() {
+                        if let LCTerm::PolyLabel(l) = t {
+                            match cs.iter().rposition(|x| &x.label == l) { Some(i) => acc += *coeff * cs[i].c, None => okc = false }
+                        }
+                    }
+                    cc.push(acc);
+                }
+                if okc { exp.push(("lccs".into(), Expect::Fes(cc))); }
+            }
+            ctx.ses.ask(id, mk("sonic.check_combinations"), ImplOutcome::Ok(exp));
+            if *b { Outcome3::Accept } else { Outcome3::Reject }
+        }
+        Ok(Err(e)) => { ctx.ses.ask(id, mk("sonic.check_combinations"), ImplOutcome::Refuse(err_kind(e))); Outcome3::Refuse }
+        Err(a) => { ctx.ses.ask(id, mk("sonic.check_combinations"), ImplOutcome::Refuse(a.clone())); Outcome3::Refuse }
+    };
+    let kind = kind_of(&r);
+    ctx.ses.ask(&format!("{}/kind", id), mk("sonic.check_combinations_kind"), ImplOutcome::Ok(vec![("kind".into(), Expect::Raw(wire::label(&kind)))]));
+    (o3, kind, xis)
+}
+
+/// generated combination lists as in `props_marlin::c06` / `generic::gen_lcs`: coefficients 0, 1, -1,
+/// random; repeated labels; constant terms (at least one polynomial term); degree-bounded polynomials
+/// only alone with coefficient one
+fn gen_sonic_lcs(rng: &mut Rng, c: &Case, nlc: usize, prefix: &str) -> Vec<LinComb> {
+    let npoly = c.polys.len();
+    let unbounded: Vec<usize> = (0..npoly).filter(|&k| c.polys[k].degree_bound().is_none()).collect();
+    let bounded: Vec<usize> = (0..npoly).filter(|&k| c.polys[k].degree_bound().is_some()).collect();
+    let mut lcs = vec![];
+    for j in 0..nlc {
+        let mut lc = LinearCombination::empty(format!("{}{}", prefix, j));
+        if !bounded.is_empty() && (unbounded.is_empty() || range(rng, 0, 3) == 0) {
+            let i = bounded[range(rng, 0, bounded.len() - 1)];
+            lc.push((Fr::from(1u64), LCTerm::PolyLabel(c.polys[i].label().clone())));
+        } else {
+            let nt = range(rng, 1, 6);
+            for _ in 0..nt {
+                let coeff = match range(rng, 0, 4) { 0 => Fr::zero(), 1 => Fr::from(1u64), 2 => -Fr::from(1u64), _ => Fr::rand(rng) };
+                if range(rng, 0, 3) == 0 { lc.push((coeff, LCTerm::One)); }
+                else { lc.push((coeff, LCTerm::PolyLabel(c.polys[unbounded[range(rng, 0, unbounded.len() - 1)]].label().clone()))); }
+            }
+            if lc.iter().all(|(_, t)| t.is_one()) {
+                lc.push((Fr::rand(rng), LCTerm::PolyLabel(c.polys[unbounded[range(rng, 0, unbounded.len() - 1)]].label().clone())));
+            }
+        }
+        lcs.push(lc);
+    }
+    lcs
+}
+
+/// a query set over the combinations: 1..3 point labels (labels may share a point value), several
+/// equations per point; claimed values are the true combination values
+fn gen_lc_queries(rng: &mut Rng, c: &Case, lcs: &[LinComb], nl: usize) -> (QuerySet<Fr>, Evaluations<Fr, Fr>) {
+    let mut qs: QuerySet<Fr> = QuerySet::new();
+    let mut ev: Evaluations<Fr, Fr> = Evaluations::new();
+    let mut pts: Vec<Fr> = vec![];
+    for l in 0..nl {
+        let pt = if l > 0 && coin(rng) { pts[range(rng, 0, pts.len() - 1)] } else { Fr::rand(rng) };
+        pts.push(pt);
+        let mut any = false;
+        for (k, lc) in lcs.iter().enumerate() {
+            if range(rng, 0, 2) != 0 || (!any && k + 1 == lcs.len()) {
+                any = true;
+                qs.insert((lc.label().clone(), (format!("pt{}", l), pt)));
+                ev.insert((lc.label().clone(), pt), lc_true_value(c, lc, &pt));
+            }
+        }
+    }
+    (qs, ev)
+}
+
+fn c06(ctx: &mut Ctx) {
+    let n = ctx.n(14, 220);
+    for i in 0..n {
+        let id0 = format!("C06/sonic-model/{}", i);
+        if !ctx.selected(&id0) { continue; }
+        let mut rng = rng_for(ctx.seed, "C06/sonic-model", i as u64);
+        let npoly = range(&mut rng, 2, 4);
+        let c = match new_case(ctx, &mut rng, &id0, npoly) { Some(c) => c, None => continue };
+        let cs = match c.comm_scalars() { Some(x) => x, None => continue };
+        let bounded: Vec<usize> = (0..npoly).filter(|&k| c.polys[k].degree_bound().is_some()).collect();
+
+        // ---- (A) refused mixtures / scaled bounded terms / unknown labels: prover AND verifier ----
+        {
+            let mut variants: Vec<(&str, Vec<(Fr, LCTerm)>, &str)> = vec![];
+            let pl = |k: usize| LCTerm::PolyLabel(c.polys[k].label().clone());
+            if let Some(&b) = bounded.get(range(&mut rng, 0, bounded.len().max(1) - 1)) {
+                let o = (b + 1) % npoly;
+                let one = Fr::from(1u64);
+                variants.push(("mixed", vec![(one, pl(b)), (Fr::rand(&mut rng), pl(o))], "equationHasDegreeBounds"));
+                variants.push(("mixed-rev", vec![(Fr::rand(&mut rng), pl(o)), (one, pl(b))], "equationHasDegreeBounds"));
+                variants.push(("with-constant", vec![(one, pl(b)), (Fr::rand(&mut rng), LCTerm::One)], "equationHasDegreeBounds"));
+                variants.push(("constant-first", vec![(Fr::rand(&mut rng), LCTerm::One), (one, pl(b))], "equationHasDegreeBounds"));
+                variants.push(("zero-constant", vec![(one, pl(b)), (Fr::zero(), LCTerm::One)], "equationHasDegreeBounds"));
+                variants.push(("twice", vec![(one, pl(b)), (one, pl(b))], "equationHasDegreeBounds"));
+                variants.push(("zero-coefficient-other", vec![(one, pl(b)), (Fr::zero(), pl(o))], "equationHasDegreeBounds"));
+                variants.push(("scaled", vec![(Fr::from(2u64), pl(b))], "abort"));
+                variants.push(("scaled-zero", vec![(Fr::zero(), pl(b))], "abort"));
+                variants.push(("scaled-minus-one", vec![(-one, pl(b))], "abort"));
+            }
+            variants.push(("unknown-label", vec![(Fr::rand(&mut rng), LCTerm::PolyLabel("nosuch".to_string()))], "missingPolynomial"));
+            variants.push(("unknown-label-after-known", vec![(Fr::rand(&mut rng), pl(0)), (Fr::rand(&mut rng), LCTerm::PolyLabel("nosuch".to_string()))],
+                if c.polys[0].degree_bound().is_some() { "equationHasDegreeBounds" } else { "missingPolynomial" }));
+            for (vname, terms, want) in variants {
+                let id = format!("{}/refused-{}", id0, vname);
+                // the bad combination sits after an in-policy one, so the loop over combinations matters
+                let mut lcs = if coin(&mut rng) { gen_sonic_lcs(&mut rng, &c, 1, "ok") } else { vec![] };
+                lcs.push(LinearCombination::new("bad".to_string(), terms));
+                let z = Fr::rand(&mut rng);
+                let mut qs: QuerySet<Fr> = QuerySet::new();
+                let mut ev: Evaluations<Fr, Fr> = Evaluations::new();
+                for lc in &lcs {
+                    qs.insert((lc.label().clone(), ("pt".to_string(), z)));
+                    ev.insert((lc.label().clone(), z), lc_true_value(&c, lc, &z));
+                }
+                let mut sp = LogSponge::fresh();
+                let (r, _) = lc_open(ctx, &mut rng, &format!("{}/prover", id), &c, &cs, &lcs, &qs, &mut sp);
+                let pk = kind_of(&r);
+                if pk == "answered" {
+                    ctx.rep.expect_fail(&id, &format!("sonic/lc-bound-dropped/{}", vname), "open_combinations answered a combination it must refuse", replay(&c, &id, ctx.seed, vname));
+                }
+                let mut vs = LogSponge::fresh();
+                let (o, vk_kind, _) = lc_check(ctx, &mut rng, &format!("{}/verifier", id), &c, &cs, &lcs, &qs, &ev, &[Fr::zero()], &[None], &mut vs, false);
+                if o == Outcome3::Accept {
+                    ctx.rep.expect_fail(&id, &format!("sonic/lc-false-accepted/refused-{}", vname), "check_combinations accepted a combination it must refuse", replay(&c, &id, ctx.seed, vname));
+                }
+                // the property names the error of a mixture: both sides must return it
+                if want == "equationHasDegreeBounds" && (pk != want || vk_kind != want) {
+                    ctx.rep.expect_fail(&id, &format!("sonic/lc-mixture-error/{}", vname), &format!("a degree-bounded polynomial mixed with other terms: prover {} verifier {} (EquationHasDegreeBounds expected)", pk, vk_kind), replay(&c, &id, ctx.seed, vname));
+                }
+                ctx.rep.count(&format!("sonic/lc-refused-{}/{}/{}", vname, pk, vk_kind));
+                ctx.rep.case(&format!("{} lc refused {} prover={} verifier={}", c.desc(), vname, pk, vk_kind), Some(format!("sonic-lc/refused/{}/{}", vname, pk)));
+            }
+        }
+
+        // ---- (B) in-policy combinations: honest accept, model agreement, perturbations at every position ----
+        let nlc = range(&mut rng, 1, if ctx.thorough { 4 } else { 3 });
+        let mut lcs = gen_sonic_lcs(&mut rng, &c, nlc, "lc");
+        // now and then two combinations with the same terms under different labels, and one label used twice
+        if lcs.len() >= 2 && range(&mut rng, 0, 5) == 0 {
+            let t = lc_terms(&lcs[0]);
+            let l = lcs[1].label().clone();
+            lcs[1] = LinearCombination::new(l, t);
+        }
+        let nl = range(&mut rng, 1, 3);
+        let (qs, ev) = gen_lc_queries(&mut rng, &c, &lcs, nl);
+        let groups = crate::generic::group(&qs);
+        let shared_points = { let pts: std::collections::BTreeSet<_> = qs.iter().map(|q| (q.1).1).collect(); pts.len() < groups.len() };
+        let multi_eq = groups.iter().any(|g| g.2.len() >= 2);
+        let desc = format!("{} lcs=[{}] queries={} labels={} shared={} multi={}", c.desc(),
+            lcs.iter().map(|l| format!("{}:{}t{}c", l.label(), l.len(), l.iter().filter(|t| t.1.is_one()).count())).collect::<Vec<_>>().join(","), qs.len(), groups.len(), shared_points, multi_eq);
+        let mut sp = LogSponge::fresh();
+        let (r, xis) = lc_open(ctx, &mut rng, &id0, &c, &cs, &lcs, &qs, &mut sp);
+        let proof = match r {
+            Ok(Ok(p)) => p,
+            other => {
+                ctx.rep.expect_fail(&id0, "sonic/lc-honest-refused", &format!("open_combinations refused an in-policy request: {}", kind_of(&other)), replay(&c, &id0, ctx.seed, &desc));
+                ctx.rep.case(&format!("{} lc open refused", desc), None);
+                continue;
+            }
+        };
+        let (lp, lr) = match lc_combined(&c, &lcs) { Some(x) => x, None => continue };
+        let ws = lc_witness_scalars(&c, &lp, &lr, &qs, &xis);
+        if ws.len() != proof.proof.len() || !ws.iter().zip(proof.proof.iter()).all(|(w, p)| g1(*w) == p.w) {
+            ctx.rep.expect_fail(&id0, "sonic/witness-not-key-defined", "combination witness differs from the trapdoor-defined value", replay(&c, &id0, ctx.seed, &desc));
+            continue;
+        }
+        if proof.evals.is_some() {
+            ctx.rep.expect_fail(&id0, "sonic/lc-proof-carries-evals", "Sonic's combination proof carries evaluations", replay(&c, &id0, ctx.seed, &desc));
+        }
+        let rvs: Vec<Option<Fr>> = proof.proof.iter().map(|p| p.random_v).collect();
+        ctx.rep.count(&format!("sonic/lc-shared-point-{}", shared_points));
+        ctx.rep.count(&format!("sonic/lc-multi-equation-{}", multi_eq));
+        ctx.rep.count(&format!("sonic/lc-labels-{}", groups.len()));
+        ctx.rep.case(&desc, Some(format!("sonic-lc/{}/{}/{}/{}", lcs.len(), groups.len(), shared_points, multi_eq)));
+        // honest, for two verifier RNG states
+        let mut honest_ok = true;
+        for s in 0..2 {
+            let mut vr = rng_for(ctx.seed ^ 0x5eed, &id0, s);
+            let mut vs = LogSponge::fresh();
+            let id = format!("{}/honest{}", id0, s);
+            let (o, _, vx) = lc_check(ctx, &mut vr, &id, &c, &cs, &lcs, &qs, &ev, &ws, &rvs, &mut vs, true);
+            if o != Outcome3::Accept {
+                honest_ok = false;
+                ctx.rep.expect_fail(&id, "sonic/lc-honest-rejected", &format!("honest combination proof not accepted: {:?}", o), replay(&c, &id, ctx.seed, &desc));
+            }
+            if vx != xis || sp.probe() != vs.probe() {
+                ctx.rep.expect_fail(&id, "sonic/sponge-diverged/lc", "prover and verifier squeezed different challenges", replay(&c, &id, ctx.seed, &desc));
+            }
+            ctx.rep.count("sonic/lc-check-honest");
+        }
+        if !honest_ok { continue; }
+        let neg = |ctx: &mut Ctx, rng: &mut Rng, id: &str, vname: &str, l2: &[LinComb], cs2: &[CommS], e2: &Evaluations<Fr, Fr>, must_reject: Option<bool>| {
+            let mut vs = LogSponge::fresh();
+            let (o, _, _) = lc_check(ctx, rng, id, &c, cs2, l2, &qs, e2, &ws, &rvs, &mut vs, false);
+            match must_reject {
+                Some(true) if o == Outcome3::Accept => ctx.rep.expect_fail(id, &format!("sonic/lc-false-accepted/{}", vname), "changed combination statement accepted", replay(&c, id, ctx.seed, &format!("{} | {}", vname, desc))),
+                Some(false) if o != Outcome3::Accept => ctx.rep.expect_fail(id, &format!("sonic/lc-true-rejected/{}", vname), &format!("unchanged combination statement not accepted: {:?}", o), replay(&c, id, ctx.seed, &format!("{} | {}", vname, desc))),
+                _ => {}
+            }
+            ctx.rep.count(&format!("sonic/lc-check-{}", vname));
+            ctx.rep.case(&format!("sonic lc {} out={:?}", vname, o), Some(format!("sonic-lc-check/{}/{}", vname, i % 6)));
+            o
+        };
+        let keys: Vec<(String, Fr)> = ev.keys().cloned().collect();
+        // (1) claimed value changed, at every claim position
+        for k in 0..keys.len() {
+            let mut e2 = ev.clone();
+            *e2.get_mut(&keys[k]).unwrap() += rand_nonzero(&mut rng);
+            neg(ctx, &mut rng, &format!("{}/value@{}", id0, k), "value", &lcs, &cs, &e2, Some(true));
+        }
+        // (2) coefficient / (3) constant changed on the verifier's side, at every term of every queried combination
+        for (li, lc) in lcs.iter().enumerate() {
+            // duplicate labels: the last combination with the label is the one opened
+            if lcs.iter().rposition(|l| l.label() == lc.label()) != Some(li) { continue; }
+            if !qs.iter().any(|q| &q.0 == lc.label()) { continue; }
+            let terms = lc_terms(lc);
+            for pos in 0..terms.len() {
+                let mut t2 = terms.clone();
+                t2[pos].0 += rand_nonzero(&mut rng);
+                let mut l2 = lcs.clone();
+                l2[li] = LinearCombination::new(lc.label().clone(), t2);
+                match &terms[pos].1 {
+                    LCTerm::One => { neg(ctx, &mut rng, &format!("{}/constant@{}.{}", id0, li, pos), "constant", &l2, &cs, &ev, Some(true)); }
+                    LCTerm::PolyLabel(l) => {
+                        // the combined commitment moves by delta * C_l: no change when C_l is the identity
+                        let cl = cs.iter().rev().find(|x| &x.label == l).map(|x| x.c).unwrap_or(Fr::zero());
+                        let must = if cl.is_zero() { None } else { Some(true) };
+                        neg(ctx, &mut rng, &format!("{}/coefficient@{}.{}", id0, li, pos), "coefficient", &l2, &cs, &ev, must);
+                    }
+                }
+            }
+            // a constant term added to / dropped from the combination
+            {
+                let mut t2 = terms.clone();
+                t2.push((rand_nonzero(&mut rng), LCTerm::One));
+                let mut l2 = lcs.clone();
+                l2[li] = LinearCombination::new(lc.label().clone(), t2);
+                neg(ctx, &mut rng, &format!("{}/constant-added@{}", id0, li), "constant-added", &l2, &cs, &ev, Some(true));
+            }
+            // claimed value and constant moved together: the statement is the same one
+            if let Some(pos) = terms.iter().position(|t| t.1.is_one()) {
+                let d = rand_nonzero(&mut rng);
+                let mut t2 = terms.clone();
+                t2[pos].0 += d;
+                let mut l2 = lcs.clone();
+                l2[li] = LinearCombination::new(lc.label().clone(), t2);
+                let mut e2 = ev.clone();
+                for k in keys.iter().filter(|k| &k.0 == lc.label()) { *e2.get_mut(k).unwrap() += d; }
+                neg(ctx, &mut rng, &format!("{}/value-and-constant@{}", id0, li), "value-and-constant", &l2, &cs, &e2, Some(false));
+            }
+        }
+        // (4) an underlying commitment changed (the evaluation of a polynomial under a combination is not
+        // transmitted by Sonic; what the verifier holds of it is its commitment)
+        {
+            let used: Vec<usize> = (0..cs.len()).filter(|&k| lcs.iter().enumerate().any(|(li, l)| lcs.iter().rposition(|m| m.label() == l.label()) == Some(li)
+                && qs.iter().any(|q| &q.0 == l.label()) && { let s: Fr = l.iter().filter(|t| matches!(&t.1, LCTerm::PolyLabel(x) if x == &cs[k].label)).map(|t| t.0).sum(); !s.is_zero() })).collect();
+            if let Some(&k) = used.get(range(&mut rng, 0, used.len().max(1) - 1)) {
+                let mut cs2 = cs.clone();
+                cs2[k].c += rand_nonzero(&mut rng);
+                neg(ctx, &mut rng, &format!("{}/commitment@{}", id0, k), "commitment", &lcs, &cs2, &ev, None);
+            }
+            // a commitment named by a queried combination is missing: refused
+            if let Some(l) = lcs.iter().flat_map(|l| l.iter()).find_map(|t| match &t.1 { LCTerm::PolyLabel(x) => Some(x.clone()), _ => None }) {
+                let cs2: Vec<CommS> = cs.iter().filter(|x| x.label != l).cloned().collect();
+                neg(ctx, &mut rng, &format!("{}/missing-commitment", id0), "missing-commitment", &lcs, &cs2, &ev, Some(true));
+            }
+        }
+        // (5) cancelling perturbations across two equations, preferring two that share a point label
+        if keys.len() >= 2 {
+            let mut pair = None;
+            for g in &groups { if g.2.len() >= 2 && pair.is_none() { pair = Some(((g.2[0].clone(), g.1), (g.2[1].clone(), g.1))); } }
+            let same_group = pair.is_some();
+            let (ka, kb) = pair.unwrap_or((keys[0].clone(), keys[1].clone()));
+            if ka != kb {
+                let d = rand_nonzero(&mut rng);
+                let mut e2 = ev.clone();
+                *e2.get_mut(&ka).unwrap() += d;
+                *e2.get_mut(&kb).unwrap() -= d;
+                neg(ctx, &mut rng, &format!("{}/cancel", id0), if same_group { "cancel-same-point" } else { "cancel-across-points" }, &lcs, &cs, &e2, Some(true));
+            }
+            // errors weighted so that they cancel under the challenges of their point label (the
+            // exceptional set of the per-point equation): decided by the model, no expectation
+            if same_group {
+                let xs = fresh_challenges(qs.len() + groups.len() + 2);
+                let mut off = 0;
+                for g in &groups {
+                    if g.2.len() >= 2 {
+                        let (xa, xb) = (xs[off], xs[off + 1]);
+                        if let (Some(ia), Some(ib)) = (ark_ff::Field::inverse(&xa), ark_ff::Field::inverse(&xb)) {
+                            let dd = rand_nonzero(&mut rng);
+                            let mut e2 = ev.clone();
+                            *e2.get_mut(&(g.2[0].clone(), g.1)).unwrap() += dd * ia;
+                            *e2.get_mut(&(g.2[1].clone(), g.1)).unwrap() -= dd * ib;
+                            let o = neg(ctx, &mut rng, &format!("{}/crafted-cancel", id0), "crafted-cancel", &lcs, &cs, &e2, None);
+                            ctx.rep.count(&format!("sonic/lc-crafted-cancel-{:?}", o));
+                        }
+                        break;
+                    }
+                    off += 1 + g.2.len();
+                }
+            }
+        }
+        // (6) proof-list shapes with a false claim planted
+        {
+            let mut e2 = ev.clone();
+            *e2.get_mut(&keys[0]).unwrap() += rand_nonzero(&mut rng);
+            for (sname, w2, r2) in [("empty", vec![], vec![]), ("truncated", ws[..ws.len() - 1].to_vec(), rvs[..rvs.len() - 1].to_vec()),
+                ("extended", { let mut e = ws.clone(); e.push(ws[0]); e }, { let mut e = rvs.clone(); e.push(rvs[0]); e })] {
+                let id = format!("{}/shape-{}", id0, sname);
+                let mut vs = LogSponge::fresh();
+                let (o, _, _) = lc_check(ctx, &mut rng, &id, &c, &cs, &lcs, &qs, &e2, &w2, &r2, &mut vs, false);
+                if o == Outcome3::Accept {
+                    ctx.rep.expect_fail(&id, &format!("sonic/lc-false-accepted/shape-{}", sname), "false combination claim accepted with a malformed proof list", replay(&c, &id, ctx.seed, sname));
+                }
+                ctx.rep.count(&format!("sonic/lc-shape-{}", sname));
+            }
+        }
+    }
+    ctx.flush_model("C06-sonic");
+}
+
+// ------------------------------------------------------------------------------------------------
+// C11 (model-backed): a history of open / batch_open / open_combinations on ONE sponge; the verifier
+// replays it on an identically initialised sponge.  Per operation: the challenges the two sides
+// squeezed are equal and are exactly the ones the model consumes (`used`), the model reproduces proofs
+// and decisions, the end states are equal; a proof verified at another position of the history is
+// not accepted (non-constant polynomials), with the model deciding the same under the verifier's
+// own challenges.
+// ------------------------------------------------------------------------------------------------
+enum HOp {
+    Open { idx: Vec<usize>, z: Fr },
+    Batch { qs: QuerySet<Fr>, ev: Evaluations<Fr, Fr> },
+    Lc { lcs: Vec<LinComb>, qs: QuerySet<Fr>, ev: Evaluations<Fr, Fr> },
+}
+enum HProof {
+    Open(Fr, Option<Fr>),
+    Many(Vec<Fr>, Vec<Option<Fr>>),
+}
+
+fn c11(ctx: &mut Ctx) {
+    let n = ctx.n(12, 160);
+    for i in 0..n {
+        let id0 = format!("C11/sonic-model/{}", i);
+        if !ctx.selected(&id0) { continue; }
+        let mut rng = rng_for(ctx.seed, "C11/sonic-model", i as u64);
+        let npoly = range(&mut rng, 2, 4);
+        let c = match new_case(ctx, &mut rng, &id0, npoly) { Some(c) => c, None => continue };
+        let cs = match c.comm_scalars() { Some(x) => x, None => continue };
+        let vks = match c.vk_scalars() { Some(x) => x, None => continue };
+        let _ = &vks;
+        let nonconst: Vec<usize> = (0..npoly).filter(|&k| c.polys[k].polynomial().coeffs.len() > 1).collect();
+        let nops = range(&mut rng, 2, if ctx.thorough { 6 } else { 4 });
+        let mut ops: Vec<HOp> = vec![];
+        for _ in 0..nops {
+            match range(&mut rng, 0, 2) {
+                0 => {
+                    let mut idx: Vec<usize> = (0..npoly).filter(|_| coin(&mut rng)).collect();
+                    if idx.is_empty() { idx.push(range(&mut rng, 0, npoly - 1)); }
+                    ops.push(HOp::Open { idx, z: Fr::rand(&mut rng) });
+                }
+                1 => { let nl = range(&mut rng, 1, 2); let (qs, ev) = gen_queries(&mut rng, &c, nl); ops.push(HOp::Batch { qs, ev }); }
+                _ => {
+                    let nlc = range(&mut rng, 1, 2);
+                    let lcs = gen_sonic_lcs(&mut rng, &c, nlc, "lc");
+                    let nl = range(&mut rng, 1, 2);
+                    let (qs, ev) = gen_lc_queries(&mut rng, &c, &lcs, nl);
+                    ops.push(HOp::Lc { lcs, qs, ev });
+                }
+            }
+        }
+        let mut sp = LogSponge::fresh();
+        {
+            use ark_crypto_primitives::sponge::CryptographicSponge;
+            sp.absorb(&(ctx.seed ^ i as u64).to_le_bytes().to_vec());
+            sp.log.clear();
+        }
+        let pre = sp.clone();
+        let mut vs = sp.clone();
+        let mut proofs: Vec<HProof> = vec![];
+        let mut segs: Vec<Vec<Fr>> = vec![];
+        let mut ok = true;
+        // verify one operation against `vs`; queues the model request under the verifier's challenges
+        let verify = |ctx: &mut Ctx, rng: &mut Rng, id: &str, op: &HOp, pr: &HProof, vs: &mut LogSponge| -> (Outcome3, Vec<Fr>) {
+            match (op, pr) {
+                (HOp::Open { idx, z }, HProof::Open(w, rv)) => {
+                    let sub: Vec<CommS> = idx.iter().map(|&k| cs[k].clone()).collect();
+                    let comms = comms_from(&sub);
+                    let vals: Vec<Fr> = idx.iter().map(|&k| c.polys[k].evaluate(z)).collect();
+                    let proof = Proof { w: g1(*w), random_v: *rv };
+                    let before = vs.challenges().len();
+                    let r = guarded(|| PC::check(&c.vk, &comms, z, vals.iter().cloned(), &proof, vs, None));
+                    let xis: Vec<Fr> = vs.challenges()[before..].to_vec();
+                    let (out, o3) = match r {
+                        Ok(Ok(b)) => (ImplOutcome::Ok(vec![("b".into(), Expect::Bool(b)), ("used".into(), Expect::Nat(xis.len()))]), if b { Outcome3::Accept } else { Outcome3::Reject }),
+                        Ok(Err(e)) => (ImplOutcome::Refuse(err_kind(&e)), Outcome3::Refuse),
+                        Err(a) => (ImplOutcome::Refuse(a), Outcome3::Refuse),
+                    };
+                    let req = comms_args(c.base("sonic.check"), &sub).arg("z", wire::fe(z)).arg("vs", wire::fes(&vals)).arg("w", wire::fe(w)).arg("rv", wire::opt_fe(rv))
+                        .arg("xis", wire::fes(&pad_xis(&xis, 1 + sub.len(), id, 7)));
+                    ctx.ses.ask(id, req, out);
+                    (o3, xis)
+                }
+                (HOp::Batch { qs, ev }, HProof::Many(ws, rvs)) => {
+                    let comms = comms_from(&cs);
+                    let proofs: Vec<Proof> = ws.iter().zip(rvs).map(|(w, rv)| Proof { w: g1(*w), random_v: *rv }).collect();
+                    let ngroups = crate::generic::group(qs).len();
+                    let rs = crate::kzg::replay_u128(rng, ws.len().max(ngroups) + 1);
+                    let before = vs.challenges().len();
+                    let r = guarded(|| PC::batch_check(&c.vk, &comms, qs, ev, &proofs, vs, rng));
+                    let xis: Vec<Fr> = vs.challenges()[before..].to_vec();
+                    let (out, o3) = match r {
+                        Ok(Ok(b)) => (ImplOutcome::Ok(vec![("b".into(), Expect::Bool(b)), ("used".into(), Expect::Nat(xis.len()))]), if b { Outcome3::Accept } else { Outcome3::Reject }),
+                        Ok(Err(e)) => (ImplOutcome::Refuse(err_kind(&e)), Outcome3::Refuse),
+                        Err(a) => (ImplOutcome::Refuse(a), Outcome3::Refuse),
+                    };
+                    let req = evals_args(queries_args(comms_args(c.base("sonic.batch_check"), &cs), qs), ev)
+                        .arg("ws", wire::fes(ws)).arg("rvs", wire::Val::L(rvs.iter().map(|x| wire::opt_fe(x)).collect()))
+                        .arg("xis", wire::fes(&pad_xis(&xis, qs.len() + ngroups + 2, id, 8))).arg("rs", wire::fes(&rs));
+                    ctx.ses.ask(id, req, out);
+                    (o3, xis)
+                }
+                (HOp::Lc { lcs, qs, ev }, HProof::Many(ws, rvs)) => {
+                    let (o, _, xis) = lc_check(ctx, rng, id, &c, &cs, lcs, qs, ev, ws, rvs, vs, false);
+                    (o, xis)
+                }
+                _ => (Outcome3::Refuse, vec![]),
+            }
+        };
+        for (k, op) in ops.iter().enumerate() {
+            let id = format!("{}/op{}", id0, k);
+            let before = sp.challenges().len();
+            let (kind, pr): (&str, Option<HProof>) = match op {
+                HOp::Open { idx, z } => {
+                    let ps: Vec<LP> = idx.iter().map(|&k| c.polys[k].clone()).collect();
+                    let cm: Vec<LC> = idx.iter().map(|&k| c.comms[k].clone()).collect();
+                    let rd: Vec<Rand> = idx.iter().map(|&k| c.rands[k].clone()).collect();
+                    match guarded(|| PC::open(&c.ck, &ps, &cm, z, &mut sp, &rd, Some(&mut rng))) {
+                        Ok(Ok(p)) => {
+                            let xis: Vec<Fr> = sp.challenges()[before..].to_vec();
+                            let req = rands_args(polys_args(c.base("sonic.open"), &ps), &rd).arg("z", wire::fe(z)).arg("xis", wire::fes(&xis));
+                            ctx.ses.ask(&format!("{}/prover", id), req, ImplOutcome::Ok(vec![("w".into(), Expect::G1(p.w)), ("rv".into(), Expect::OptFe(p.random_v)), ("used".into(), Expect::Nat(xis.len()))]));
+                            let w = witness_scalar(&c.trap, &ps, &rd, z, &xis);
+                            if g1(w) != p.w { ("open", None) } else { ("open", Some(HProof::Open(w, p.random_v))) }
+                        }
+                        _ => ("open", None),
+                    }
+                }
+                HOp::Batch { qs, .. } => {
+                    match guarded(|| PC::batch_open(&c.ck, &c.polys, &c.comms, qs, &mut sp, &c.rands, Some(&mut rng))) {
+                        Ok(Ok(p)) => {
+                            let xis: Vec<Fr> = sp.challenges()[before..].to_vec();
+                            let req = queries_args(rands_args(polys_args(c.base("sonic.batch_open"), &c.polys), &c.rands), qs).arg("xis", wire::fes(&xis));
+                            ctx.ses.ask(&format!("{}/prover", id), req, ImplOutcome::Ok(vec![
+                                ("ws".into(), Expect::G1s(p.iter().map(|x| x.w).collect())),
+                                ("rvs".into(), Expect::Raw(wire::Val::L(p.iter().map(|x| wire::opt_fe(&x.random_v)).collect()))),
+                                ("used".into(), Expect::Nat(xis.len()))]));
+                            let ws = lc_witness_scalars(&c, &c.polys, &c.rands, qs, &xis);
+                            if ws.len() != p.len() || !ws.iter().zip(&p).all(|(w, q)| g1(*w) == q.w) { ("batch", None) } else { ("batch", Some(HProof::Many(ws, p.iter().map(|x| x.random_v).collect()))) }
+                        }
+                        _ => ("batch", None),
+                    }
+                }
+                HOp::Lc { lcs, qs, .. } => {
+                    let (r, xis) = lc_open(ctx, &mut rng, &format!("{}/prover", id), &c, &cs, lcs, qs, &mut sp);
+                    match (r, lc_combined(&c, lcs)) {
+                        (Ok(Ok(p)), Some((lp, lr))) => {
+                            let ws = lc_witness_scalars(&c, &lp, &lr, qs, &xis);
+                            if ws.len() != p.proof.len() || !ws.iter().zip(&p.proof).all(|(w, q)| g1(*w) == q.w) { ("lc", None) } else { ("lc", Some(HProof::Many(ws, p.proof.iter().map(|x| x.random_v).collect()))) }
+                        }
+                        _ => ("lc", None),
+                    }
+                }
+            };
+            let pr = match pr {
+                Some(p) => p,
+                None => {
+                    ctx.rep.expect_fail(&id, &format!("sonic/history-open-refused/{}", kind), &format!("op {} ({}) refused, or its witness is not the key-defined one", k, kind), replay(&c, &id, ctx.seed, kind));
+                    ok = false; break;
+                }
+            };
+            let seg: Vec<Fr> = sp.challenges()[before..].to_vec();
+            let (o, vx) = verify(ctx, &mut rng, &format!("{}/verifier", id), op, &pr, &mut vs);
+            if o != Outcome3::Accept {
+                ctx.rep.expect_fail(&id, &format!("sonic/history-rejected/{}", kind), &format!("honest proof of op {} ({}) in a history not accepted: {:?}", k, kind, o), replay(&c, &id, ctx.seed, kind));
+                ok = false; break;
+            }
+            if vx != seg || sp.log != vs.log || sp.probe() != vs.probe() {
+                ctx.rep.expect_fail(&id, &format!("sonic/sponge-diverged/{}", kind), &format!("prover and verifier transcripts differ after op {} ({}): prover [{}] verifier [{}]", k, kind, sp.shape(), vs.shape()), replay(&c, &id, ctx.seed, kind));
+                ok = false; break;
+            }
+            ctx.rep.count(&format!("sonic-model/op-{}", kind));
+            proofs.push(pr);
+            segs.push(seg);
+        }
+        ctx.rep.case(&format!("{} history ops={} challenges={}", c.desc(), nops, segs.iter().map(|s| s.len().to_string()).collect::<Vec<_>>().join("+")), Some(format!("sonic-model/hist/{}/{}", nops, segs.iter().map(|s| s.len()).sum::<usize>())));
+        if !ok || proofs.len() < 2 { continue; }
+        // a proof moved to another position: op k (k >= 1) verified first, on the pre-state.  The model
+        // decides under the verifier's own challenges; for non-constant polynomials it must not be accepted.
+        for k in 1..ops.len() {
+            let id = format!("{}/displaced{}", id0, k);
+            let mut vs2 = pre.clone();
+            let (o, vx) = verify(ctx, &mut rng, &id, &ops[k], &proofs[k], &mut vs2);
+            let nonconstant = match &ops[k] {
+                HOp::Open { idx, .. } => idx.iter().all(|j| nonconst.contains(j)),
+                HOp::Batch { qs, .. } => qs.iter().all(|q| c.polys.iter().any(|p| p.label() == &q.0 && p.polynomial().coeffs.len() > 1)),
+                // a combination may cancel to a constant: no expectation
+                HOp::Lc { .. } => false,
+            };
+            // same challenges at the two positions (possible only if no challenge was squeezed before): same statement
+            let moved = vx.iter().zip(&segs[k]).any(|(a, b)| a != b);
+            if nonconstant && moved && o == Outcome3::Accept {
+                ctx.rep.expect_fail(&id, "sonic/accepted-on-other-transcript/displaced", "proof accepted at another position of the history", replay(&c, &id, ctx.seed, &format!("proof of op {} verified first", k)));
+            }
+            ctx.rep.count(&format!("sonic-model/displaced-{:?}", o));
+            ctx.rep.case(&format!("sonic displaced op{} out={:?}", k, o), Some(format!("sonic-model/disp/{}/{:?}", k, o)));
+        }
+    }
+    ctx.flush_model("C11-sonic");
 }
